@@ -5,15 +5,25 @@
 (* and on a miss the construction of a fresh Template object followed by a  *)
 (* cache set.  Objects are numbered in creation order; `made[i]` is the key *)
 (* object i was compiled from.                                              *)
+(*                                                                         *)
+(* Component level.  A component CLASS c (an identity: the class object)    *)
+(* has an import path (module + qualname) and an inline template.  The     *)
+(* import path does NOT identify the class: every class made by one        *)
+(* factory function, and every re-execution of one class statement, has    *)
+(* the same path.  Rendering class c is a compile request for the class'   *)
+(* OWN template - key ClassKey(ct, c), built from the class table entry of *)
+(* c itself, never from that of another class of the same path.  `cls` is  *)
+(* the class of the last request (0: a plain cached_template() call).       *)
 (***************************************************************************)
 EXTENDS LRUCache
 
-VARIABLES made, got, req      \* req: key of the last compile request (0: none)
-tcVars == <<order, val, ret, made, got, req>>
+VARIABLES made, got, req,     \* req: key of the last compile request (0: none)
+          cls                 \* class that made the last request (0: none / plain call)
+tcVars == <<order, val, ret, made, got, req, cls>>
 
-TCInit == LRUInit /\ made = <<>> /\ got = 0 /\ req = 0
+TCInit == LRUInit /\ made = <<>> /\ got = 0 /\ req = 0 /\ cls = 0
 
-Compile(k) ==
+Request(k) ==
   LET g == DoGet(order, val, k) IN
   /\ req' = k
   /\ IF g.ret # None
@@ -22,7 +32,18 @@ Compile(k) ==
               s == DoSet(g.order, g.val, k, fresh) IN
           /\ Becomes(s) /\ got' = fresh /\ made' = Append(made, k)
 
-ClearCache == Becomes(DoClear) /\ req' = 0 /\ UNCHANGED <<made, got>>
+Compile(k) == Request(k) /\ cls' = 0
+
+ClearCache == Becomes(DoClear) /\ req' = 0 /\ cls' = 0 /\ UNCHANGED <<made, got>>
+
+\* ---- component level: ct is the class table, ct[c] = [path |-> import path, src |-> inline template] of
+\* class c (both small positive numbers < KeyBase).  Keys stay numbers (TLC cannot compare a tuple with the
+\* "no request" marker 0): path * KeyBase + src.
+KeyBase == 1000
+ClassKey(ct, c) == ct[c].path * KeyBase + ct[c].src
+SrcOfKey(k) == k % KeyBase
+PathOfKey(k) == k \div KeyBase
+RenderClass(ct, c) == Request(ClassKey(ct, c)) /\ cls' = c
 
 TCNext == (\E k \in Keys : Compile(k)) \/ ClearCache
 TCSpec == TCInit /\ [][TCNext]_tcVars
@@ -36,4 +57,15 @@ Identity == [][req' # 0 /\ req' \in DOMAIN val => got' = val[req'] /\ made' = ma
 \* A miss always yields an object that did not exist before.
 MissIsFresh == [][req' # 0 /\ req' \notin DOMAIN val =>
                     got' = Len(made) + 1 /\ made' = Append(made, req')]_tcVars
+
+\* Component-level transparency (GotIsRight with the class identity): the object handed to class c was
+\* compiled from c's own template under c's own path - so rendering it equals compiling c's template afresh.
+OwnTemplate(ct) == cls # 0 => /\ got \in 1..Len(made)
+                              /\ made[got] = ClassKey(ct, cls)
+                              /\ SrcOfKey(made[got]) = ct[cls].src
+\* Classes with different templates never hold the same object, whether or not they share an import path.
+NoSharing(ct) == \A c, d \in 1..Len(ct) :
+                   (/\ ct[c].src # ct[d].src
+                    /\ ClassKey(ct, c) \in DOMAIN val /\ ClassKey(ct, d) \in DOMAIN val)
+                   => val[ClassKey(ct, c)] # val[ClassKey(ct, d)]
 =============================================================================
